@@ -628,7 +628,25 @@ def _callbacks(plan, inst, ctx):
         ctx.fired('callback-composite')
     with seams.allocator(garbage, salt=3, fired=fired):
         with seams.schedule(record=[]) as sch:
-            _solver_call(prop, inst, inst.run, st, N, cb, 'callbacks')
+            try:
+                _solver_call(prop, inst, inst.run, st, N, cb, 'callbacks')
+            except Violation as v:
+                # 0/0 in a smooth solver whose iterate sits EXACTLY at a
+                # stationary point (zero start value, operator that is
+                # identically zero: thorough seed 26, nlcg): arithmetic
+                # breakdown at the solution, counted like CG's, not a
+                # statement about callbacks
+                if 'ZeroDivisionError' in v.fingerprint and name in (
+                        'bfgs', 'broyden', 'newton', 'nlcg', 'gauss_newton',
+                        'steepest_descent') and hasattr(inst, 'f'):
+                    try:
+                        gn = float(inst.f.gradient(st['x']).norm())
+                    except Exception:
+                        gn = float('inf')
+                    if gn <= 1e-12:
+                        ctx.probe('breakdown-at-stationary-point:' + name)
+                        raise Reject('breakdown at a stationary point')
+                raise
             drawn = list(sch.drawn)
     if stored is not None:
         if len(stored) != rec.count or any(
